@@ -155,7 +155,9 @@ func ToCommandLine(wf WireFormat, resolveIds bool) (rule string, err error) {
 				break loop
 			}
 		}
-		if !extraFields && r.isFileWatch(path) {
+		// The -k flag splits its argument at commas, so a key that contains a
+		// comma can only be displayed as a key filter.
+		if !extraFields && r.isFileWatch(path) && !strings.Contains(key, ",") {
 			arguments := []string{"-w", path, "-p", permission(r.values[permIdx]).String()}
 			if len(key) > 0 {
 				arguments = append(arguments, "-k", key)
